@@ -305,3 +305,6 @@ pub fn read_replay(path: &str) -> serde_json::Value {
     let s = std::fs::read_to_string(path).expect("replay file");
     serde_json::from_str(&s).expect("replay json")
 }
+
+/// VM program generator + step-wise tracer shared by the VM-family binaries (see VMTRACE.md).
+pub mod vmtrace;
